@@ -159,6 +159,7 @@ def default_knobs(rng) -> dict:
         "p_cond": rng.choice([0.0, 0.05, 0.12, 0.2]),
         "cond_depth": rng.choice([0, 1, 1, 2, 2]),
         "p_sing": rng.choice([0.0, 0.05, 0.15]),
+        "p_const": rng.choice([0.0, 0.0, 0.1, 0.3]),
         "layers": rng.choice([1, 2, 3, 5, 8]),
         "maxlen": rng.choice([1, 3, 6, 12]),
         "shuffle": rng.random() < 0.7,
@@ -224,6 +225,8 @@ def gen_model(rng, knobs: dict | None = None) -> str:
         name = ident(rng, used, maxlen)
         pool_lower = [n for l in range(layer) for n in by_layer[l]]
         fan = rng.randrange(1, kn["max_fan"] + 1)
+        if rng.random() < kn.get("p_const", 0.0):
+            fan = 0  # a constant intermediate: no name on its right-hand side
         deps = []
         for _ in range(fan):
             r = rng.random()
